@@ -293,6 +293,7 @@ func Replacements() []any {
 		// (appended later; indices above are referenced by saved replays)
 		[]any{[]any{M{kv("url", "x")}}}, []any{1, math.NaN()}, M{kv("w", []any{1.5, math.Inf(-1)})}, []any{[]any{[]any{M{kv("deep", M{kv("er", []any{M{kv("x", 1)}})})}}}},
 		M{kv("batches", []any{[]any{M{kv("url", "x")}}}), kv("weights", []any{1, math.NaN()})},
+		"term", "sigint", "TERM", "SIGHUP ", " SIGTERM", "Sigkill", "15",
 	}
 }
 
